@@ -30,6 +30,42 @@ Theorem C18_new_bytes_table : forall sha256hex unmarshal c cap b s,
 Proof. exact new_bytes_table. Qed.
 Print Assumptions C18_new_bytes_table.
 
+(* The directory is part of the initial state.  For EVERY file system before the save — temporary file absent, shorter,
+   of equal length, LONGER than the new content, arbitrary bytes, a complete older save; lease file present or absent
+   — after a completed saveConfig the lease file's bytes are exactly the new serialisation and the temporary file is
+   gone.  The model's open step carries the flag O_TRUNC explicitly ([save_fs] = [save_fs_flags true], what
+   ioutil.WriteFile does; tied to the source by kind consts and to the behaviour by kind savedir). *)
+Theorem C18_save_ignores_stale_tmp : forall content fs,
+  f_lease (save_fs content fs) = Some content /\ f_tmp (save_fs content fs) = None.
+Proof. exact save_ignores_stale_tmp. Qed.
+Print Assumptions C18_save_ignores_stale_tmp.
+
+(* hence the restart after a save, and the one after that (no save in between changes the file), construct from the
+   new serialisation whatever was lying in the directory *)
+Theorem C18_restart_after_save_any_directory : forall sha256hex unmarshal c cap content fs,
+  new_bytes sha256hex unmarshal c cap (f_lease (save_fs content fs)) = new_bytes sha256hex unmarshal c cap (Some content).
+Proof. exact restart_after_save_any_directory. Qed.
+Print Assumptions C18_restart_after_save_any_directory.
+
+(* O_TRUNC is necessary: opening the temporary file without it leaves the tail of a longer stale file in place, and
+   that is renamed over the lease file (the file then fails its checksum at the next restart) *)
+Theorem C18_save_without_trunc : forall content fs,
+  f_lease (save_fs_flags false content fs) = Some (content ++ skipn (List.length content) (tmp_content fs)).
+Proof. exact save_without_trunc. Qed.
+Print Assumptions C18_save_without_trunc.
+
+Theorem C18_save_without_trunc_refuted :
+  exists content fs, f_lease (save_fs_flags false content fs) <> Some content.
+Proof. exact save_without_trunc_refuted. Qed.
+Print Assumptions C18_save_without_trunc_refuted.
+
+(* at every crash point the temporary file is absent, untouched, or a prefix of the NEW content *)
+Theorem C18_crash_tmp_prefix : forall content fs fs',
+  In fs' (crash_states content fs) ->
+  fs' = fs \/ f_tmp fs' = None \/ exists n, f_tmp fs' = Some (firstn n content).
+Proof. exact crash_tmp_prefix. Qed.
+Print Assumptions C18_crash_tmp_prefix.
+
 (* Crash-point clause, file-system level: saveConfig = create/truncate <file>.tmp, write (a crash leaves any prefix),
    rename over <file>.  At EVERY crash point the lease file holds the old content or the complete new content ... *)
 Theorem C18_crash_lease_old_or_new : forall content fs fs',
